@@ -74,6 +74,10 @@ class Ctx:
             json.dump(doc, f, indent=1, default=repr)
         self.violations.append({"what": what, "replay": path, "failing_input": failing_input})
 
+    def has_failing_input(self):
+        """a violation with a concrete failing input has been recorded (a broken correspondence alone does not stop the search)"""
+        return any(v["failing_input"] for v in self.violations)
+
     def known_hit(self, finding, what):
         self.known_hits.append((finding, what))
 
